@@ -429,7 +429,11 @@ class Interp:
             return None
         args = [self.ev(a, env) for a in n.args]
         kw = {}
-        for k in n.keywords:
+        keywords = n.keywords
+        if (t2.src(n.func) in ('zeros_like', 'np.zeros_like', 'jnp.zeros_like') and len(n.args) == 1 and len(keywords) == 1
+                and keywords[0].arg == 'dtype' and t2.src(keywords[0].value) == f'np.result_type({t2.src(n.args[0])}, float)'):
+            keywords = []          # dtype promotion of the buffer to at least float: a runtime matter, the term is unchanged
+        for k in keywords:
             if k.arg is None:
                 raise TranslateError('**kwargs call')
             kw[k.arg] = self.ev(k.value, env)
